@@ -1,6 +1,6 @@
 (* Extract/Extract.v -- extraction of the executable model to OCaml (ExtrOcamlBasic + ExtrOcamlString only). *)
 From Coq Require Import Extraction ExtrOcamlBasic ExtrOcamlString.
-From AT Require Import Num Vec Aff Farkas FM Equiv PTree Cells Abs ArenaEval ArenaCompose.
+From AT Require Import Num Vec Aff Farkas FM Equiv PTree Cells Abs ArenaEval ArenaCompose ArenaFrameCheck.
 Extraction Blacklist List String Int.
 Extraction "model_c02.ml"
   qc_of_float qz qfrac qleb qltb qeqb Qcplus Qcmult Qcopp Qcminus Qcdiv
@@ -11,4 +11,4 @@ Extraction "model_c02.ml"
   pieces tree_equiv check_cex out_eqb
   aget aset alen akeys
   abs_at abs_tree
-  arena_compose next_key evaluate_arena find_terminal_arena.
+  arena_compose next_key evaluate_arena find_terminal_arena extendsb.
